@@ -1080,6 +1080,18 @@ class SymIO:
                 return SBytes(list(self.buf), kind='bytes')
             return _bytes(self.buf)
 
+        def tell(self):
+            return _len(self.buf)          # the stub is append-only: the position is always the end
+
+        def getbuffer(self):
+            return SBytes(list(self.buf), kind='memoryview')
+
+        def __len__(self):
+            return _len(self.buf)
+
+        def close(self):
+            pass
+
 
 def sym_join(sep, parts):
     parts = list(parts)
